@@ -89,4 +89,20 @@ def openAccepted (health safety : Int) : Bool := !(health ≤ safety)
 def userClose (owner signer : String) (p : Option Pos) : Except Unit (Option Pos) :=
   if signer = owner then .ok none else .error ()
 
+/-! ### settlement inside a third party's request
+
+`CheckAndLiquidateUnhealthyPosition` first settles what has accrued on the position (borrow interest, funding) out of its custody
+and moves the position's checkpoints to now; a position that is then found healthy is stored like that. -/
+
+/-- (custody, accrued since the checkpoint) -/
+abbrev Acc := Int × Int
+
+/-- one settlement: everything accrued is taken, the checkpoint moves (nothing is accrued any more) -/
+def settle (p : Acc) : Acc := (p.1 - p.2, 0)
+
+/-- `n` requests naming the position within one block (no time passes between them) -/
+def settleN : Nat → Acc → Acc
+  | 0, p => p
+  | n + 1, p => settleN n (settle p)
+
 end Elys.Close
